@@ -3,6 +3,7 @@
    The model is coq/model/Server.v (table.go, bucket.go, node.go, Server.updateNode/addNode);
    [Inv], [reachable], [wf_event], [wf_cfg] are defined in proofs/ServerDefs.v. *)
 From Dht Require Import Base Int160 Msg Server ServerDefs ServerInv ServerInv2 ServerExamples.
+From Dht Require Import RunApi ApiProofs.
 From DhtGen Require Import Params.
 
 Section C05.
@@ -70,6 +71,38 @@ Section C05.
   Proof. exact (ServerInv2.C05_api_agree Store id_secure cfg s). Qed.
 End C05.
 
+(* ---- overlapping callers (engine `api`): the table read at rest after AddNode / AddNodesFromFile /
+        inbound messages ran concurrently is ACCEPTED or rejected by RunApi.ra_accept against the
+        candidates offered. An accepted table satisfies the clauses of C05 on its entries, and a
+        candidate certainly offered is present unless inadmissible or its bucket is full; every serial
+        order of the offers yields an accepted table (so only outcomes that no linearisation explains,
+        e.g. an (id, address) pair stored twice, are rejected) ---- *)
+Theorem C05_concurrent_accept_wf root must may obs :
+  ra_accept root must may obs = true ->
+  NoDup (map fst obs) /\
+  (forall e b, In (e, b) obs ->
+     ra_id e <> root /\ ra_id e <> 0%N /\ b = bucket_index root (ra_id e) /\ (In e must \/ In e may)) /\
+  (forall b, (ra_count root b (map fst obs) <= K)%nat) /\
+  (forall e, In e must -> ra_id e <> root -> ra_id e <> 0%N ->
+     In e (map fst obs) \/ (K <= ra_count root (ra_bucket root e) (map fst obs))%nat).
+Proof. exact (ra_accept_wf root must may obs). Qed.
+
+Theorem C05_concurrent_every_serial_order_accepted root offers :
+  ra_accept root offers [] (ra_observe root (ra_run root offers)) = true.
+Proof. exact (ra_seq_accept root offers). Qed.
+
+(* the counters the `api` engine recomputes (`acount` lines) are the model's API views *)
+Theorem C05_counters_are_the_models (Store : Type) (id_secure : N -> bytes -> bool) (cfg : config) (s : sstate Store) :
+  ra_counts (map (fun n => (node_good id_secure cfg (s_now Store s) n, node_bad id_secure cfg n)) (s_nodes Store s))
+  = (num_nodes Store s, num_good Store id_secure cfg s, length (exported_nodes Store id_secure cfg s)).
+Proof. exact (ra_counts_model Store id_secure cfg s). Qed.
+
+Example C05_concurrent_rejects_duplicate :
+  ra_accept 1 [ex_e 2 7] [] [(ex_e 2 7, 158%nat)] = true /\
+  ra_accept 1 [ex_e 2 7] [] [(ex_e 2 7, 158%nat); (ex_e 2 7, 158%nat)] = false /\
+  ra_why 1 [ex_e 2 7] [] [(ex_e 2 7, 158%nat); (ex_e 2 7, 158%nat)] = 1%nat.
+Proof. exact ra_rejects_duplicate. Qed.
+
 (* ---- non-vacuity: a concrete configuration and a reachable state with a full bucket; a response
         that displaces an entry keeps the table well formed (ServerExamples.v) ---- *)
 Example C05_nonvacuous :
@@ -99,3 +132,7 @@ Print Assumptions C05_index_agrees.
 Print Assumptions C05_no_table_panic.
 Print Assumptions C05_api_agree.
 Print Assumptions C05_nonvacuous.
+Print Assumptions C05_concurrent_accept_wf.
+Print Assumptions C05_concurrent_every_serial_order_accepted.
+Print Assumptions C05_concurrent_rejects_duplicate.
+Print Assumptions C05_counters_are_the_models.
